@@ -39,6 +39,30 @@ type copyState struct {
 	atReturn map[string]bool // closure below its tag at the instant it returned nil
 	atTag    map[string]bool // closure below its tag right after the tag was written (still inside the copy)
 	requests int
+	late     int // events observed after the copy had returned
+}
+
+// candidate is a violation observed from inside copy number `copy`; it is classified when all copies have returned.
+type candidate struct {
+	copy int
+	late bool // observed after ImageCopy had returned (the event came from a goroutine the copy left behind)
+	sig  string
+	msg  string
+}
+
+// sigStray is the known finding: ImageCopy with referrers / digest-tags that fails can return (and release its GC
+// lock) while goroutines it started are still copying blobs into the layout.
+const sigStray = "gc-ran-while-failed-copy-still-writing"
+
+func (e *envB) addCand(i int, late bool, sig, msg string) {
+	for _, c := range e.cands {
+		if c.copy == i && c.sig == sig {
+			return
+		}
+	}
+	if len(e.cands) < 40 {
+		e.cands = append(e.cands, candidate{copy: i, late: late, sig: sig, msg: msg})
+	}
 }
 
 type envB struct {
@@ -59,13 +83,24 @@ type envB struct {
 	maxInflight   int
 	closesInCopy  int
 	failWhileBusy int
-	viol          *evid.Violation
+	cands         []candidate
 	closeErrs     []string
 }
 
 func (e *envB) hasIndex() bool {
 	_, err := os.Stat(filepath.Join(e.tgt, "index.json"))
 	return err == nil
+}
+
+func short(err error) string {
+	if err == nil {
+		return ""
+	}
+	s := err.Error()
+	if len(s) > 160 {
+		s = s[:160] + "…"
+	}
+	return s
 }
 
 func copyRepo(i int) string { return fmt.Sprintf("proj/c%d", i) }
@@ -143,8 +178,16 @@ func (e *envB) observe(i int, what string, tagWritten bool) {
 	e.reqs++
 	cs := e.copies[i]
 	cs.requests++
+	late := cs.done
+	if late {
+		// ImageCopy #i has returned already, yet here is one of its goroutines, still copying
+		cs.late++
+		if os.Getenv("VERIF_DEBUG") != "" {
+			fmt.Fprintf(os.Stderr, "late event of copy %d (returned %v): %s\n", i, cs.err, what)
+		}
+	}
 	files := listDigestFiles(e.tgt)
-	if e.viol == nil {
+	{
 		gone := []string{}
 		for d := range cs.seen {
 			if !files[d] {
@@ -153,8 +196,8 @@ func (e *envB) observe(i int, what string, tagWritten bool) {
 		}
 		if len(gone) > 0 {
 			sort.Strings(gone)
-			e.viol = evid.V("file-disappeared-during-copy", "while ImageCopy #%d (node %d -> tag %s) was in progress, %d file(s) under blobs/ that were there at an earlier instant of the same copy are gone at %s: %v",
-				i, e.c.Copies[i].Node, copyTag(i), len(gone), what, head(gone, 4))
+			e.addCand(i, late, "file-disappeared-during-copy", fmt.Sprintf("while ImageCopy #%d (node %d -> tag %s) was in progress, %d file(s) under blobs/ that were there at an earlier instant of the same copy are gone at %s: %v",
+				i, e.c.Copies[i].Node, copyTag(i), len(gone), what, head(gone, 4)))
 		}
 	}
 	for d := range files {
@@ -177,18 +220,16 @@ func (e *envB) observe(i int, what string, tagWritten bool) {
 		if cerr != nil && hadIndex {
 			e.closeErrs = append(e.closeErrs, cerr.Error())
 		}
-		if e.viol == nil {
-			gone := []string{}
-			for d := range files {
-				if !after[d] {
-					gone = append(gone, d)
-				}
+		gone := []string{}
+		for d := range files {
+			if !after[d] {
+				gone = append(gone, d)
 			}
-			if len(gone) > 0 {
-				sort.Strings(gone)
-				e.viol = evid.V("close-during-copy-removed-files", "Close(target) called while ImageCopy #%d (node %d -> tag %s) was in progress (from inside %s, %d copies running) removed %d file(s) under blobs/: %v (Close returned %v)",
-					i, e.c.Copies[i].Node, copyTag(i), what, e.inflight, len(gone), head(gone, 4), cerr)
-			}
+		}
+		if len(gone) > 0 {
+			sort.Strings(gone)
+			e.addCand(i, late, "close-during-copy-removed-files", fmt.Sprintf("Close(target) called while ImageCopy #%d (node %d -> tag %s) was in progress (from inside %s, %d copies running) removed %d file(s) under blobs/: %v (Close returned %v)",
+				i, e.c.Copies[i].Node, copyTag(i), what, e.inflight, len(gone), head(gone, 4), cerr))
 		}
 	}
 }
@@ -226,6 +267,9 @@ func (e *envB) runCopy(ctx context.Context, i int) {
 		e.failWhileBusy++
 	}
 	cs := e.copies[i]
+	if os.Getenv("VERIF_DEBUG") != "" {
+		fmt.Fprintf(os.Stderr, "copy %d returned %v\n", i, cerr)
+	}
 	cs.done, cs.err, cs.atReturn = true, cerr, atReturn
 	for d := range files {
 		e.seenAll[d] = true
@@ -369,11 +413,39 @@ func checkB(cs Case, ev *evid.Collector) *evid.Violation {
 		}
 		return v
 	}
-	if v := report(e.viol); v != nil {
-		return v
+	// A copy with the referrers / digest-tags option that fails may return while goroutines it started still copy
+	// blobs (known finding sigStray): what such a copy observed is attributed to that finding, everything else is judged
+	// as observed.
+	strayPossible := false
+	stray := func(i int) bool {
+		return e.copies[i].done && e.copies[i].err != nil && (c.Copies[i].Referrers || c.Copies[i].DigestTags)
+	}
+	for i := range e.copies {
+		if stray(i) {
+			strayPossible = true
+		}
+		if e.copies[i].late > 0 {
+			ev.Class("B:event-after-copy-returned")
+		}
+	}
+	for _, cd := range e.cands {
+		v := &evid.Violation{Sig: cd.sig, Msg: cd.msg}
+		if stray(cd.copy) {
+			v = evid.V(sigStray, "ImageCopy #%d (node %d -> tag %s, referrers=%v digest-tags=%v) failed with %q; it returned - releasing its GC lock - while goroutines it had started were still copying blobs into the layout (event observed after the return: %v), and a collection ran beside them. Observation: %s",
+				cd.copy, c.Copies[cd.copy].Node, copyTag(cd.copy), c.Copies[cd.copy].Referrers, c.Copies[cd.copy].DigestTags, short(e.copies[cd.copy].err), cd.late, cd.msg)
+		} else if cd.late {
+			v.Sig = "event-of-returned-copy-" + cd.sig
+		}
+		if v := report(v); v != nil {
+			return v
+		}
 	}
 	if len(e.closeErrs) > 0 {
-		if v := report(evid.V("close-returned-error", "Close(target) returned an error during the concurrent run: %v", head(e.closeErrs, 3))); v != nil {
+		v := evid.V("close-returned-error", "Close(target) returned an error during the concurrent run: %v", head(e.closeErrs, 3))
+		if strayPossible && strings.Contains(e.closeErrs[0], "failed to delete") {
+			v = evid.V(sigStray, "a copy with referrers / digest-tags failed and returned while its goroutines were still writing; a Close after its return ran a collection beside them and failed on a temp file that was renamed under it: %v", head(e.closeErrs, 3))
+		}
+		if v := report(v); v != nil {
 			return v
 		}
 	}
@@ -434,6 +506,11 @@ func checkB(cs Case, ev *evid.Collector) *evid.Violation {
 	}
 	// a failed copy released its lock, so did every other: the final Close collects
 	modified := perr == nil
+	if strayPossible {
+		// goroutines left behind by a failed copy may still add files: the completeness clause cannot be judged
+		ev.Class("B:final-clause-skipped-possible-stray-writers")
+		modified = false
+	}
 	if modified && cerr == nil {
 		leftTmp, leftDig := []string{}, []string{}
 		for _, k := range sortedKeys(end.files) {
